@@ -2,6 +2,7 @@
 package main
 
 import (
+	"bytes"
 	"fmt"
 
 	"github.com/Comcast/gots/v2/psi"
@@ -126,6 +127,8 @@ func printed(r *gen.Rand, d psi.PmtDescriptor) bool {
 	}
 	return true
 }
+
+var prevRead interface{} // what the previous case of pmt-read-from-streams obtained and expects
 
 func lang(r *gen.Rand) string {
 	base := []string{"eng", "spa", "fra", "deu", "zho", "und"}[r.Intn(6)]
@@ -346,7 +349,7 @@ func run(c *mon.Ctx) {
 		pid := 0x20 + r.Intn(8000)
 		other := (pid + 1 + r.Intn(50)) & 0x1fff
 		p.Streams = []ref.ES{{Type: 0x1b, PID: other}, {Type: byte(code), PID: pid, Descs: []ref.Desc{{Tag: 0x52, Body: []byte{7}}}}}
-		pay := append([]byte{0}, p.Section()...)
+		pay := append(ref.PointerPrefix([]int{0, 0, 1, 17, 254, 255}[code%6]), p.Section()...)
 		m, err := psi.NewPMT(pay)
 		if err != nil || len(m.ElementaryStreams()) != 2 {
 			c.Fail("streamtype:pmt-setup", fmt.Sprintf("a two-stream PMT was not decoded: %v", err), wit{Case: "pmt", Body: mon.Hex(pay)})
@@ -408,6 +411,75 @@ func run(c *mon.Ctx) {
 		}
 		c.Count("streamtype.results_kept_side_by_side")
 		c.Class("streamtype/side-by-side")
+	})
+	// PMTs read from packet streams (psi.ReadPMT): stream types, the query by PID and the descriptor decoders answer
+	// for the PMT they were obtained from, also after further PMTs were read from other streams
+	c.Floor("readpmt.earlier_pmt_rechecked", 300)
+	c.Stream("pmt-read-from-streams", c.N(800, 200000), func(i int, r *gen.Rand) {
+		type exp struct {
+			m     psi.PMT
+			pids  []int
+			types []byte
+			langs []string
+			rates []uint32
+		}
+		var e exp
+		n := 1 + r.Intn(6)
+		p := ref.PMT{Program: uint16(1 + r.Intn(1000)), Version: byte(r.Intn(32)), CurrentNext: true, PCRPID: 0x100}
+		for j := 0; j < n; j++ {
+			l, rate := lang(r), uint32(r.Intn(1<<21))
+			t := r.PickByte([]byte{0x0f, 0x81, 0x87, 0x1b, 0x24, 0x02, 0x86, 0x06, 0x03, r.Byte()})
+			p.Streams = append(p.Streams, ref.ES{Type: t, PID: 0x100 + j, Descs: []ref.Desc{
+				{Tag: 0x0a, Body: append([]byte(l), byte(r.Intn(4)))},
+				{Tag: 0x0e, Body: []byte{0xc0 | byte(rate>>16), byte(rate >> 8), byte(rate)}}}})
+			e.pids, e.types, e.langs, e.rates = append(e.pids, 0x100+j), append(e.types, t), append(e.langs, l), append(e.rates, rate)
+		}
+		pay := append(ref.PointerPrefix(r.PickInt([]int{0, 0, 1, 9})), p.Section()...)
+		const pmtPID = 0x1f00
+		pk, _ := ref.Packetise(pmtPID, r.Intn(16), pay, ref.RandChunks(r, 1+len(pay)/100), r.Bool())
+		var st bytes.Buffer
+		for k := range pk {
+			st.Write(pk[k][:])
+		}
+		m, err := psi.ReadPMT(&st, pmtPID)
+		c.Eval(1)
+		if err != nil || m == nil {
+			c.Fail("readpmt:error", fmt.Sprintf("ReadPMT on a stream that carries a %d-stream PMT in %d packets failed: %v", n, len(pk), err), wit{Case: "readpmt", Body: mon.Hex(pay)})
+			return
+		}
+		e.m = m
+		check := func(x *exp, when string) bool {
+			ess := x.m.ElementaryStreams()
+			if len(ess) != len(x.pids) {
+				c.Fail("readpmt:streams"+when, fmt.Sprintf("a PMT obtained through ReadPMT lists %d streams, its section has %d", len(ess), len(x.pids)), wit{Case: "readpmt" + when})
+				return false
+			}
+			for j, es := range ess {
+				ds := es.Descriptors()
+				if es.ElementaryPid() != x.pids[j] || es.StreamType() != x.types[j] || x.m.IsPidForStreamWherePresentationLagsEbp(x.pids[j]) != lags(x.types[j]) || len(ds) != 2 {
+					c.Fail("readpmt:stream"+when, fmt.Sprintf("stream %d: PID %#x type %#02x lags=%v with %d descriptors; the section says PID %#x type %#02x with 2 descriptors", j, es.ElementaryPid(), es.StreamType(), x.m.IsPidForStreamWherePresentationLagsEbp(x.pids[j]), len(ds), x.pids[j], x.types[j]), wit{Case: "readpmt" + when})
+					return false
+				}
+				if g := ds[0].DecodeIso639LanguageCode(); g != x.langs[j] {
+					c.Fail("readpmt:language"+when, fmt.Sprintf("stream %d: DecodeIso639LanguageCode = %q, the section says %q", j, g, x.langs[j]), wit{Case: "readpmt" + when, Detail: g})
+					return false
+				}
+				if g := ds[1].DecodeMaximumBitRate(); g != x.rates[j] || es.MaxBitRate() != uint64(x.rates[j])*50*8 {
+					c.Fail("readpmt:maximum-bitrate"+when, fmt.Sprintf("stream %d: DecodeMaximumBitRate = %d, MaxBitRate() = %d; the section says %d", j, g, es.MaxBitRate(), x.rates[j]), wit{Case: "readpmt" + when, Detail: fmt.Sprint(g)})
+					return false
+				}
+			}
+			return true
+		}
+		if !check(&e, "") {
+			return
+		}
+		if prevRead != nil {
+			c.Count("readpmt.earlier_pmt_rechecked")
+			check(prevRead.(*exp), "-of-an-earlier-read-after-another-stream-was-read")
+		}
+		prevRead = &e
+		c.Class(fmt.Sprintf("readpmt/streams=%d/packets=%d", n, len(pk)))
 	})
 	per := c.N(30, 50000)
 	c.Exhaustive("all 256 descriptor tags for the neutral-value checks", 256)
@@ -553,8 +625,8 @@ func run(c *mon.Ctx) {
 		c.Class(fmt.Sprintf("pmt-query/n=%d/removed=%d", n, len(gone)))
 	})
 	c.Floor("concurrent.calls", 20000)
-	c.Stream("concurrent-decoders", c.N(3, 150), func(i int, r *gen.Rand) {
-		c.Concurrent("PMT descriptor decoders / LookupPmtStreamType", 8, 1000, r, func(q *gen.Rand) string {
+	c.Stream("concurrent-decoders", c.N(8, 200), func(i int, r *gen.Rand) {
+		c.Concurrent("PMT descriptor decoders / LookupPmtStreamType", 8, 4000, r, func(q *gen.Rand) string {
 			v := uint32(q.Intn(1 << 21))
 			d := psi.NewPmtDescriptor(0x0e, []byte{0xc0 | byte(v>>16), byte(v >> 8), byte(v)})
 			l := lang(q)
